@@ -6,6 +6,7 @@ INVARIANT InvNoWriteOutsideFrame
 INVARIANT InvAlignedInBody
 INVARIANT InvDisjoint
 INVARIANT InvStackArgs
+INVARIANT InvHomeSlots
 INVARIANT InvFrameRecord
 INVARIANT InvCompleted
 INVARIANT InvSavedRestored
